@@ -32,6 +32,12 @@ enum T {
     /// create a sleep, poll it once, wait `hold`, drop it unfinished
     DroppedSleep { d: Duration, hold: Duration },
     Interval { period: Duration, ticks: u32 },
+    /// a sleep (or a timeout around a future that never finishes) polled once in the task that created it
+    /// and then awaited by another task: the timer has to wake the waker it was given last
+    MovedSleep { d: Duration, in_timeout: bool },
+    /// an interval whose first tick lies `ahead` in the future; the first `tick()` is given up after
+    /// `give_up` (before the start), the next one is awaited: it completes at the start, not before
+    IntervalAt { ahead: Duration, period: Duration, give_up: Duration },
     /// a pipe round trip in the middle, so timer expiry interleaves with I/O completions
     IoThenSleep(Duration),
     /// the thread is kept busy (no await) for `d` once `after` has passed: deadlines expire while
@@ -61,7 +67,7 @@ fn dur() -> Duration {
 fn gen_prog() -> Vec<T> {
     let n = 1 + sim::range("timers", 0, 5) as usize;
     (0..n)
-        .map(|_| match sim::choose("timer.kind", 10) {
+        .map(|_| match sim::choose("timer.kind", 12) {
             0 => T::Sleep(dur()),
             1 => T::SleepUntilPast(dur()),
             2 => T::Timeout { outer: dur(), inner: dur() },
@@ -70,6 +76,11 @@ fn gen_prog() -> Vec<T> {
             5 => T::IoThenSleep(dur()),
             6 => T::Busy { after: dur(), d: dur() },
             7 => T::TimeoutIo { outer: dur(), data_at: dur() },
+            8 => T::MovedSleep { d: dur(), in_timeout: sim::flip("moved.in.timeout", 1, 2) },
+            9 => {
+                let ahead = dur().max(Duration::from_micros(2));
+                T::IntervalAt { ahead, period: dur().max(Duration::from_nanos(1)), give_up: ahead / (2 + sim::range("interval.give.up", 0, 8) as u32) }
+            }
             _ => T::Shared {
                 slot: sim::range("shared.slot", 0, 1) as u32,
                 after: [Duration::ZERO, Duration::from_micros(3), Duration::from_micros(400)][sim::choose("shared.after", 3)],
@@ -143,6 +154,54 @@ fn timers() -> RunResult {
                                 let _ = futures_util::poll!(s.as_mut());
                                 sleep(hold).await;
                                 // dropped here, finished or not
+                            }
+                            T::MovedSleep { d, in_timeout } => {
+                                let start = Instant::now();
+                                let errs2 = errs.clone();
+                                if in_timeout {
+                                    let mut t = Box::pin(timeout(d, std::future::pending::<()>()));
+                                    let _ = futures_util::poll!(t.as_mut());
+                                    let other = compio_runtime::spawn(async move {
+                                        let r = t.await;
+                                        if r.is_ok() {
+                                            errs2.push("timeout-side", format!("timer {i}: a timeout around a future that never finishes returned its result"));
+                                        }
+                                        judge(&errs2, i, "timeout polled here, awaited there", start + d, Instant::now());
+                                    });
+                                    let _ = other.await;
+                                } else {
+                                    let mut s = Box::pin(sleep(d));
+                                    let _ = futures_util::poll!(s.as_mut());
+                                    let other = compio_runtime::spawn(async move {
+                                        s.await;
+                                        judge(&errs2, i, "sleep polled here, awaited there", start + d, Instant::now());
+                                    });
+                                    let _ = other.await;
+                                }
+                            }
+                            T::IntervalAt { ahead, period, give_up } => {
+                                let begin = Instant::now();
+                                let start = begin + ahead;
+                                let mut iv = compio_runtime::time::interval_at(start, period);
+                                // the first tick is abandoned before the interval has started
+                                let abandoned = timeout(give_up, iv.tick()).await;
+                                if abandoned.is_ok() && Instant::now() + SLACK < start && !busy_spans(begin, start) {
+                                    errs.push("early", format!("timer {i}: the first tick of an interval starting {ahead:?} ahead completed {:?} after its creation", begin.elapsed()));
+                                }
+                                if abandoned.is_err() {
+                                    let at = iv.tick().await;
+                                    let now = Instant::now();
+                                    // the first tick an interval delivers is its start (or, for a late caller, a later multiple)
+                                    let since = at.saturating_duration_since(start).as_nanos();
+                                    if at + SLACK < start || now + SLACK < start {
+                                        errs.push("early", format!("timer {i}: interval starting {ahead:?} after its creation: the tick after an abandoned first one completed {:?} after creation and reports {:?} before the start", now.duration_since(begin), start.saturating_duration_since(at)));
+                                    } else if since % period.as_nanos() > SLACK.as_nanos() && period.as_nanos() - since % period.as_nanos() > SLACK.as_nanos() {
+                                        errs.push("interval-drift", format!("timer {i}: interval_at tick reported {since} ns after the start, not a multiple of {period:?}"));
+                                    }
+                                    if now.saturating_duration_since(at) > SLACK + busy_after(at, now) {
+                                        errs.push("late", format!("timer {i}: interval_at tick observed {:?} after its instant", now.saturating_duration_since(at)));
+                                    }
+                                }
                             }
                             T::Interval { period, ticks } => {
                                 let start = Instant::now();
